@@ -15,7 +15,7 @@ PROPERTY = "C18"
 LEVEL = "fault_enumeration"
 RULE = ("fault sequences = injection iteration k in 0..n-1 (n=6, exhaustive) x origin (loss value, gradient of a "
         "network leaf, gradient of an equation parameter, optimizer update, one entry only of a multi-entry leaf in the "
-        "gradient / in the update) x optimizer (sgd, adam) x loss (ODE, "
+        "gradient / in the update, and an update making an equation parameter +inf followed by the NaN it causes) x optimizer (sgd, adam) x loss (ODE, "
         "stationary) + fault-free controls + two faults k1<k2; non-trivial = a fault with k >= 1 (last finite "
         "parameters differ from the initial ones); distinct = distinct (loss, optimizer, origin, k[, k2])")
 ASSUMPTIONS = [
@@ -24,8 +24,8 @@ ASSUMPTIONS = [
     "histories compared at rtol 1e-6 (see C07), NaN patterns exactly",
 ]
 TIMEOUT = {"quick": 1800, "thorough": 5400}
-MIN_COUNTERS = {"quick": {"fault_runs": 36, "faults_with_k_ge_1": 27, "control_runs": 1},
-                "thorough": {"fault_runs": 144, "faults_with_k_ge_1": 108, "control_runs": 4}}
+MIN_COUNTERS = {"quick": {"fault_runs": 40, "faults_with_k_ge_1": 30, "control_runs": 1, "inf_then_nan_runs": 4},
+                "thorough": {"fault_runs": 160, "faults_with_k_ge_1": 120, "control_runs": 4, "inf_then_nan_runs": 16}}
 N_ITER = 6
 ORIGINS = ["loss", "grad_nn", "grad_eq", "update", "grad_nn_entry", "update_entry"]
 
@@ -45,6 +45,10 @@ def gen_cases(tier, seed):
             for k in range(N_ITER):
                 cases.append(dict(loss=loss, opt=opt, origin=origin, k=k, k2=None, seed=seed, cost=1.0))
         cases.append(dict(loss=loss, opt=opt, origin="none", k=-1, k2=None, seed=seed, cost=1.0))
+        # an update that makes an equation parameter +inf (no NaN yet: not a failure, training goes on with it); the
+        # NaN it causes appears at a later iteration, and the parameters held just before THAT one carry the inf
+        for k in range(N_ITER - 1):
+            cases.append(dict(loss=loss, opt=opt, origin="update_inf", k=k, k2=None, seed=seed, cost=1.0))
         for (o1, k1, o2, k2) in (("grad_nn", 1, "update", 3), ("update", 2, "loss", 4), ("loss", 0, "grad_eq", 5)):
             cases.append(dict(loss=loss, opt=opt, origin=o1, k=k1, origin2=o2, k2=k2, seed=seed, cost=1.0))
     return cases
@@ -65,7 +69,10 @@ def make_chain(base, faults):
         def update(updates, state, params=None):
             for o, k in mine:
                 hit = jnp.where(state == k, jnp.nan, 0.0)
-                if o == "grad_eq":
+                if o == "update_inf":
+                    updates = eqx.tree_at(lambda t: t.eq_params["theta"], updates,
+                                          replace_fn=lambda x: x + jnp.where(state == k, jnp.inf, 0.0))
+                elif o == "grad_eq":
                     updates = eqx.tree_at(lambda t: t.eq_params["theta"], updates, replace_fn=lambda x: x + hit)
                 elif o.endswith("_entry"):
                     # NaN in ONE entry of a multi-entry leaf (the other entries and leaves stay finite)
@@ -146,7 +153,15 @@ def run_case(case, rec):
         rec.count("control_runs")
         rec.nontrivial((kind, case["opt"], "control"))
     # the reference itself must have seen the fault where it was injected
-    if faults and ref["n_done"] != first + 1:
+    if case["origin"] == "update_inf":
+        rec.count("inf_then_nan_runs")
+        if not (first + 1 < ref["n_done"] <= n) or not refloop.has_nan(ref["final_params"]) or refloop.has_nan(ref["params"]):
+            rec.inconcl("inf injected at %d: the reference loop did not end on a later NaN (n_done=%d)" % (first, ref["n_done"]))
+            return
+        if not any(np.any(np.isinf(l)) for l in refloop.leaves(ref["params"])):
+            rec.inconcl("inf injected at %d but the parameters held before the NaN iteration are finite" % first)
+            return
+    elif faults and ref["n_done"] != first + 1:
         rec.inconcl("fault injected at %d but the reference loop stopped after %d iterations" % (first, ref["n_done"]))
         return
     if not faults and ref["n_done"] != n:
